@@ -29,6 +29,7 @@ def run(ck):
     ck.rule("C12.R2", "collector gone / lock poisoned => Err and the closure is not run", floor=1)
     ck.rule("C12.R3", "reload::Subscriber methods lock per call; no field caches the inner value", floor=20)
     ck.rule("C12.R4", "the rebuild covers every callsite and the max level", floor=2)
+    ck.rule("C12.R5", "a first-hit registration is serialised with the rebuild (registry critical sections, as C04.R1)", floor=3)
     for cfg in configs:
         F = Facts(cfg)
         ck.configs.append(cfg)
@@ -37,6 +38,10 @@ def run(ck):
         r3(ck, F)
         if cfg == "default":
             r4(ck, F)
+            # a callsite registering concurrently must either be on the list the rebuild walks or compute its interest
+            # after the reload: both follow from `register` holding the dispatchers lock across interest + push
+            from rules import C04
+            C04.r1(ck, F, rid="C12.R5")
     ck.tag = ""
 
 
